@@ -9,25 +9,31 @@ Open Scope Z_scope.
 Definition core_winv (c : core) : Prop := match c with CWheel w => winv w | CHeap _ => True end.
 
 (* the wheel invariant holds after every history *)
+Lemma fits_init_wheel cur0 tt0 ops : short ops -> fits (init_wheel cur0 tt0) ops.
+Proof. unfold short, fits. cbn. lia. Qed.
+Lemma fits_init_heap now ops : short ops -> fits (init_heap now) ops.
+Proof. unfold short, fits. cbn. lia. Qed.
+
 Lemma wheel_inv_all ops cur0 tt0 :
-  0 <= cur0 -> core_winv (score (fst (run (init_wheel cur0 tt0) ops))).
+  0 <= cur0 -> short ops -> core_winv (score (fst (run (init_wheel cur0 tt0) ops))).
 Proof.
-  intros Hc. destruct (run_refines ops _ _ (minv_init_wheel cur0 tt0 Hc) (rel_init_wheel cur0 tt0)) as [Hm _].
+  intros Hc Hs. destruct (run_refines ops _ _ (minv_init_wheel cur0 tt0 Hc) (rel_init_wheel cur0 tt0) (fits_init_wheel _ _ _ Hs)) as [Hm _].
   exact (mi_core _ Hm).
 Qed.
 
 Lemma wheel_refines ops cur0 tt0 :
-  0 <= cur0 ->
+  0 <= cur0 -> short ops ->
   Forall2 out_eq (snd (run (init_wheel cur0 tt0) ops)) (snd (srun (sinit true tt0) ops)).
 Proof.
-  intros Hc. destruct (run_refines ops _ _ (minv_init_wheel cur0 tt0 Hc) (rel_init_wheel cur0 tt0)) as [_ [_ H]].
+  intros Hc Hs. destruct (run_refines ops _ _ (minv_init_wheel cur0 tt0 Hc) (rel_init_wheel cur0 tt0) (fits_init_wheel _ _ _ Hs)) as [_ [_ H]].
   exact H.
 Qed.
 
 Lemma heap_refines ops now :
+  short ops ->
   Forall2 out_eq (snd (run (init_heap now) ops)) (snd (srun (sinit false now) ops)).
 Proof.
-  destruct (run_refines ops _ _ (minv_init_heap now) (rel_init_heap now)) as [_ [_ H]]. exact H.
+  intros Hs. destruct (run_refines ops _ _ (minv_init_heap now) (rel_init_heap now) (fits_init_heap _ _ Hs)) as [_ [_ H]]. exact H.
 Qed.
 
 (* order *)
@@ -74,14 +80,14 @@ Proof.
 Qed.
 
 Lemma wheel_order ops cur0 tt0 l :
-  0 <= cur0 -> In (ODeliv l) (snd (run (init_wheel cur0 tt0) ops)) -> StronglySorted Z.le (map snd l).
+  0 <= cur0 -> short ops -> In (ODeliv l) (snd (run (init_wheel cur0 tt0) ops)) -> StronglySorted Z.le (map snd l).
 Proof.
-  intros Hc. apply (refines_sorted _ _ l (wheel_refines ops cur0 tt0 Hc)). apply srun_sorted.
+  intros Hc Hs. apply (refines_sorted _ _ l (wheel_refines ops cur0 tt0 Hc Hs)). apply srun_sorted.
 Qed.
 
 Lemma heap_order ops now l :
-  In (ODeliv l) (snd (run (init_heap now) ops)) -> StronglySorted Z.le (map snd l).
-Proof. apply (refines_sorted _ _ l (heap_refines ops now)). apply srun_sorted. Qed.
+  short ops -> In (ODeliv l) (snd (run (init_heap now) ops)) -> StronglySorted Z.le (map snd l).
+Proof. intros Hs. apply (refines_sorted _ _ l (heap_refines ops now Hs)). apply srun_sorted. Qed.
 
 (* exact firing tick of a one-shot timer, wheel left ticking *)
 Lemma wheel_exact_iter w r n k :
